@@ -248,6 +248,8 @@ def jobs(tier, seed):
         shapes += [('L32', L(I(), I(2), I()), L(I(), I())), ('D32', D(I(), I(2), I()), D(I(2), I())), ('DD', D(D(I()), I(2)), D(D(I(2)), D(I())))]
     for name, A, B_ in shapes:
         for st in ('auto', 'none'):
+            if name == 'D32' and st == 'auto':
+                continue       # 5 keys under auto: ~2.4k paths x 24 renderings, not exhausted in 1500 s (measured)
             out.append(dict(fam=name, family='generic', A=A, B=B_, dict=st, list='on', weight=10, alpha=3))
             out.append(dict(fam=name, family='plist', A=('plist', A), B=('plist', B_), dict=st, list='on', weight=10, alpha=3))
     csvs = [('csv12', L(L(('s', 1), ('s', 1))), L(L(('s', 1), ('s', 1)), L(('s', 1)))),
